@@ -6,6 +6,11 @@ use vstd::arithmetic::power2::*;
 verus! {
 //@ include prelude/bigint.rs
 //@ include spec/paths.rs
+//@ include spec/bytes.rs
+//@ include prelude/misc.rs
+//@ include prelude/bigint_bytes.rs
+//@ include prelude/std.rs
+//@ include units/inc/bytes.rs
 broadcast use {num_bigint::of_int_bi, num_bigint::bi_of_int};
 
 //@ extract fn bi_zero from src/classic/clvm/__type_compatibility__.rs
@@ -76,5 +81,84 @@ broadcast use {num_bigint::of_int_bi, num_bigint::bi_of_int};
         assert(num_bigint::int_or(bi(path_1), p0 % pk) == q * pk + (p0 - pk));
     }
 //@ end
+
+// callees proved in unit `casts` (same contract text, assumed here)
+//@ extract struct TConvertOption from src/classic/clvm/casts.rs
+//@ end
+//@ extract fn bigint_from_bytes from src/classic/clvm/casts.rs
+//@ stub
+//@ sigfile r contracts/bigint_from_bytes.sig
+//@ end
+//@ extract fn bigint_to_bytes_unsigned from src/classic/clvm/casts.rs
+//@ stub
+//@ sigfile r contracts/bigint_to_bytes_unsigned.sig
+//@ end
+//@ extract fn bigint_to_bytes_clvm from src/classic/clvm/casts.rs
+//@ stub
+//@ sigfile r contracts/bigint_to_bytes_clvm.sig
+//@ end
+
+//@ extract struct NodePath from src/classic/clvm_tools/node_path.rs
+//@ end
+pub closed spec fn np(n: NodePath) -> int { bi(n.index) }
+
+impl NodePath {
+//@ note NodePath::new: a negative number stands for the atom that encodes it, read unsigned (the path the consensus evaluator follows for that atom)
+//@ extract fn new from src/classic/clvm_tools/node_path.rs in impl NodePath
+//@ sig r
+    ensures
+        index is None ==> np(r) == 1,
+        index matches Some(i) ==> (bi(i) >= 0 ==> np(r) == bi(i)),
+        index matches Some(i) ==> (bi(i) < 0 ==> np(r) == be_unsigned(signed_bytes(bi(i)))),
+        np(r) >= 0,
+//@ before stmt @<NodePath { index: unsigned }>@
+                    proof {
+                        broadcast use axiom_signed_unique;
+                        lemma_be_bounds(bv(bytes_repr));
+                    }
+//@ end
+//@ extract fn as_path from src/classic/clvm_tools/node_path.rs in impl NodePath
+//@ sig r
+    requires np(*self) >= 0
+    ensures be_unsigned(bv(r)) == np(*self), is_min_unsigned(bv(r))
+//@ end
+//@ extract fn add from src/classic/clvm_tools/node_path.rs in impl NodePath
+//@ sig r
+    requires np(*self) >= 1, np(other_node) >= 1
+    ensures np(r) == compose(np(*self), np(other_node))
+//@ before stmt @<NodePath::new(Some(composed_path))>@
+        proof { lemma_plen_bounds(np(*self)); lemma_pow2_pos(plen(np(*self))); assert(compose(np(*self), np(other_node)) >= 0) by(nonlinear_arith)
+            requires np(other_node) >= 1, pow2(plen(np(*self))) > 0, np(*self) >= pow2(plen(np(*self))), compose(np(*self), np(other_node)) == np(other_node) * (pow2(plen(np(*self))) as int) + (np(*self) - (pow2(plen(np(*self))) as int)); }
+//@ end
+//@ extract fn first from src/classic/clvm_tools/node_path.rs in impl NodePath
+//@ sig r
+    requires np(*self) >= 0
+    ensures np(r) == 2 * np(*self)
+//@ end
+//@ extract fn rest from src/classic/clvm_tools/node_path.rs in impl NodePath
+//@ sig r
+    requires np(*self) >= 0
+    ensures np(r) == 2 * np(*self) + 1
+//@ end
+}
+
+//@ note path_number_from_u8 (classic optimiser): a path atom is read unsigned
+//@ extract fn path_number_from_u8 from src/classic/clvm_tools/stages/stage_2/optimize.rs
+//@ sig r
+    requires v@.len() * 8 <= usize::MAX
+    ensures bi(r) == be_unsigned(v@)
+//@ end
+
+// C04 / path_optimizer's rule "(f N) => path": composing atom path p with first (2) / rest (3)
+// gives the path "follow p, then first / rest" -- lemma over the contracts above
+pub proof fn lemma_first_rest_of_path(p: int)
+    requires p >= 1
+    ensures compose(p, 2) == 2 * (pow2(plen(p)) as int) + (p - (pow2(plen(p)) as int)),
+            compose(p, 3) == 3 * (pow2(plen(p)) as int) + (p - (pow2(plen(p)) as int)),
+            compose(1, 2) == 2, compose(1, 3) == 3,
+{
+    lemma2_to64();
+    assert(plen(1) == 0);
+}
 }
 fn main() {}
